@@ -15,6 +15,7 @@ MF="-modfile=/tmp/seedmod-$$.d/go.mod"
 PLACE=$(python3 -c "import json;print(json.load(open('$SRC/meta.json')).get('demo_placement','').strip('/'))")
 DEMO=$(ls $SRC/*_test.go 2>/dev/null | head -1)
 RACE=$(python3 -c "import json;print('-race' if '-race' in json.load(open('$SRC/meta.json')).get('demo_cmd','') else '')")
+ARCH=$(python3 -c "import json;print('GOARCH=386 CGO_ENABLED=0' if 'GOARCH=386' in json.load(open('$SRC/meta.json')).get('demo_cmd','') else 'VERIF_NOARCH=1')")
 res() { echo "SEEDCHECK $NAME: $*"; }
 cd $WT
 git apply $SRC/patch.diff || { res "patch does not apply"; exit 2; }
@@ -26,9 +27,9 @@ D_WITH=skip; D_WITHOUT=skip
 if [ -n "$DEMO" ] && [ -n "$PLACE" ]; then
   cp $DEMO $WT/$PLACE/zz_demo_test.go
   RUNPAT=$(grep -o 'func Test[A-Za-z0-9_]*' $DEMO | sed 's/func //' | paste -sd'|')
-  if go test $MF $RACE -vet=off -count=1 -run "^($RUNPAT)\$" ./$PLACE >/tmp/seedcheck-$$.log 2>&1; then D_WITH=pass; else D_WITH=fail; fi
+  if env $ARCH go test $MF $RACE -vet=off -count=1 -run "^($RUNPAT)\$" ./$PLACE >/tmp/seedcheck-$$.log 2>&1; then D_WITH=pass; else D_WITH=fail; fi
   git apply -R $SRC/patch.diff
-  if go test $MF $RACE -vet=off -count=1 -run "^($RUNPAT)\$" ./$PLACE >/tmp/seedcheck-$$.log 2>&1; then D_WITHOUT=pass; else D_WITHOUT=fail; fi
+  if env $ARCH go test $MF $RACE -vet=off -count=1 -run "^($RUNPAT)\$" ./$PLACE >/tmp/seedcheck-$$.log 2>&1; then D_WITHOUT=pass; else D_WITHOUT=fail; fi
 fi
 res "tests_pass_with_patch=$T_OK demo_with_patch=$D_WITH demo_without_patch=$D_WITHOUT"
 [ "$D_WITH" = fail ] && [ "$D_WITHOUT" = pass ] || { res "demonstration not confirmed"; exit 2; }
